@@ -390,7 +390,21 @@ fn select(r: &mut Rng) -> String {
         }
     }
     s.push_str(ws(r));
-    if r.chance(4, 5) {
+    let mut with_dataset = false;
+    if r.chance(1, 3) {
+        // dataset clauses: stored graphs, the empty stored graph, and graphs the store has never heard of (a query may
+        // name them; it must not create them)
+        with_dataset = true;
+        for _ in 0..r.range(1, 3) {
+            let g = *r.pick(&["g1", "g2", "g3", "g-unknown", "g-unknown2"]);
+            if r.chance(1, 2) {
+                s.push_str(&format!("{} <{}{}> ", kw(r, "FROM"), EX, g));
+            } else {
+                s.push_str(&format!("{} {} <{}{}> ", kw(r, "FROM"), kw(r, "NAMED"), EX, g));
+            }
+        }
+    }
+    if with_dataset || r.chance(4, 5) {
         s.push_str(&kw(r, "WHERE"));
         s.push_str(ws(r));
     }
@@ -619,6 +633,25 @@ impl Prop for C17 {
             }
         }
         stats.add("diagnostic_multibyte_sweep", (out.len() - n0) as u64);
+        // every recursive construct nested far beyond any sane depth, through the string entry points: an error, not a
+        // crash (a stack overflow kills the process; the check then executes the requests with crash isolation)
+        let n1 = out.len();
+        for depth in [200usize, 6000, 200_000] {
+            let texts = [
+                format!("SELECT * WHERE {{ ?s ?p ?o FILTER({}(?o > 1)) }}", "!".repeat(depth)),
+                format!("SELECT * WHERE {{ ?s ?p ?o FILTER({}?o > 1{}) }}", "(".repeat(depth), ")".repeat(depth)),
+                format!("SELECT * WHERE {}{}", "{".repeat(depth), "}".repeat(depth)),
+                format!("DELETE {{ ?s ?p ?o }} WHERE {{ ?s ?p ?o FILTER({}(?o > 1)) }}", "!".repeat(depth)),
+                format!("INSERT {{ ?s ?p ?o }} WHERE {}{}", "{".repeat(depth), "}".repeat(depth)),
+            ];
+            for t in texts {
+                for e in ["q", "u", "hq", "hu"] {
+                    // expected without consulting the parser (which is what may crash): a parse error
+                    out.push(format!("entry {} 1 unk err err _ _ {}", e, hex(&t)));
+                }
+            }
+        }
+        stats.add("deep_nesting_through_entry_points", (out.len() - n1) as u64);
         out
     }
     fn gen(&self, r: &mut Rng, _tier: Tier, i: usize, stats: &mut Stats) -> String {
